@@ -22,3 +22,8 @@ Proof.
   - exists (-1). split; [lia|]. vm_compute. discriminate.
   - exists 3. split; [lia|]. split; vm_compute; reflexivity.
 Qed.
+
+(** at M = 1 the constant ONE (v = 1) is not a canonical representative: pow with exponent 0
+    returns it, so the lower bound 2 <= M is needed as well *)
+Lemma lower_bound_needed_1 : exists x d r, 0 <= x < 1 /\ 0 <= d < 2 ^ 64 /\ pow 1 x d = Some r /\ ~ (0 <= r < 1).
+Proof. exists 0, 0, 1. split; [lia|]. split; [lia|]. split; [vm_compute; reflexivity|lia]. Qed.
